@@ -26,7 +26,7 @@ use std::{
     time::{Duration, Instant},
 };
 
-use eyeball::{ObservableReadGuard, ObservableWriteGuard, SharedObservable, Subscriber, WeakObservable};
+use eyeball::{Observable, ObservableReadGuard, ObservableWriteGuard, SharedObservable, Subscriber, WeakObservable};
 use serde_json::{json, Value};
 
 use crate::util::*;
@@ -70,6 +70,8 @@ struct Hands {
     guard: Option<G>,
     sub: Option<Box<Subscriber<Elem>>>,
     owner: Option<Box<SharedObservable<Elem>>>,
+    /// the unique `Observable` (kind "unique": only thread 1 has it)
+    uowner: Option<Box<Observable<Elem>>>,
     weak: Option<WeakObservable<Elem>>,
 }
 
@@ -90,8 +92,9 @@ fn can(h: &Hands, op: &str) -> bool {
         return false;
     }
     match op {
-        "Set" | "SetIfNotEq" | "Update" | "Get" => h.owner.is_some(),
-        "Subscribe" => h.owner.is_some() && h.sub.is_none(),
+        "Set" | "SetIfNotEq" | "Update" | "Get" => h.owner.is_some() || h.uowner.is_some(),
+        "Subscribe" => (h.owner.is_some() || h.uowner.is_some()) && h.sub.is_none(),
+        "DropOwner" if h.uowner.is_some() => !g,
         "Downgrade" => h.owner.is_some() && h.weak.is_none(),
         "Read" | "Write" | "TryReadNow" | "TryWriteNow" | "DropOwner" => h.owner.is_some() && !g,
         "GSet" => matches!(h.guard, Some(G::W(_))),
@@ -107,6 +110,35 @@ fn can(h: &Hands, op: &str) -> bool {
 fn exec(h: &mut Hands, o: &Value, st: &Status) -> Option<Value> {
     let op = gets(o, "op");
     let a = geti(o, "a");
+    if let Some(u) = h.uowner.as_mut() {
+        // the unique Observable: same calls through its own API
+        match op {
+            "Set" => return Some(ret("Val", Observable::set(u, Elem::new(a)).v)),
+            "SetIfNotEq" => {
+                return Some(match Observable::set_if_not_eq(u, Elem::new(a)) {
+                    Some(p) => ret("Val", p.v),
+                    None => ret("Nil", 0),
+                })
+            }
+            "Update" => {
+                Observable::update(u, |e| e.v = (e.v + a).rem_euclid(1000));
+                return Some(ret("Nil", 0));
+            }
+            "Get" => return Some(ret("Val", Observable::get(u).v)),
+            "Subscribe" => {
+                if h.sub.is_some() {
+                    return None;
+                }
+                h.sub = Some(Box::new(Observable::subscribe(u)));
+                return Some(ret("Nil", 0));
+            }
+            "DropOwner" => {
+                drop(h.uowner.take()?);
+                return Some(ret("Nil", 0));
+            }
+            _ => {}
+        }
+    }
     Some(match op {
         "Set" => ret("Val", h.owner.as_ref()?.set(Elem::new(a)).v),
         "SetIfNotEq" => match h.owner.as_ref()?.set_if_not_eq(Elem::new(a)) {
@@ -349,26 +381,37 @@ pub fn run_history(tr: &Tracer, run: i64, ops: &[Value], sched: Option<&Vec<i64>
     let first = &ops[0];
     assert_eq!(gets(first, "op"), "New");
     let init = geti(first, "a");
-    tr.emit(&json!({"e": "Begin", "run": run, "layer": "lin", "init": init, "directed": sched.is_some()}));
-    let root = SharedObservable::new(Elem::new(init));
+    tr.emit(&json!({"e": "Begin", "run": run, "layer": "lin", "init": init, "directed": sched.is_some(),
+                    "shared": if geti(first, "b") != 0 {1} else {0}}));
+    let shared = geti(first, "b") != 0;
+    let mut hands: BTreeMap<i64, Hands> = BTreeMap::new();
+    let mk = || Hands { guard: None, sub: None, owner: None, uowner: None, weak: None };
+    hands.insert(1, mk());
     // a subscriber the main thread keeps for itself: at the end it tells whether the observable was
     // really closed (a stuck thread with a closed observable lost a wake-up; with an open one, nobody closed)
-    let mut probe = root.subscribe();
-    let mut hands: BTreeMap<i64, Hands> = BTreeMap::new();
-    let mk = || Hands { guard: None, sub: None, owner: None, weak: None };
-    hands.insert(1, mk());
-    hands.get_mut(&1).unwrap().owner = Some(Box::new(root));
+    let mut probe;
+    if shared {
+        let root = SharedObservable::new(Elem::new(init));
+        probe = root.subscribe();
+        hands.get_mut(&1).unwrap().owner = Some(Box::new(root));
+    } else {
+        let root = Observable::new(Elem::new(init));
+        probe = Observable::subscribe(&root);
+        hands.get_mut(&1).unwrap().uowner = Some(Box::new(root));
+    }
     let go = ops.iter().position(|o| gets(o, "op") == "Go").expect("history needs Go");
     // ---- setup (sequential, main thread)
     for o in &ops[1..go] {
         let n = geti(o, "n");
-        let src = hands.get(&1).unwrap().owner.as_ref().unwrap();
-        let (owner, sub, weak) = match gets(o, "op") {
-            "CloneOwner" => (Some(Box::new((**src).clone())), None, None),
-            "Subscribe" => (None, Some(Box::new(src.subscribe())), None),
-            "SubscribeReset" => (None, Some(Box::new(src.subscribe_reset())), None),
-            "Downgrade" => (None, None, Some(src.downgrade())),
-            other => panic!("harness: unexpected setup op {other}"),
+        let h1 = hands.get(&1).unwrap();
+        let (owner, sub, weak) = match (gets(o, "op"), h1.owner.as_ref(), h1.uowner.as_ref()) {
+            ("CloneOwner", Some(src), _) => (Some(Box::new((**src).clone())), None, None),
+            ("Subscribe", Some(src), _) => (None, Some(Box::new(src.subscribe())), None),
+            ("SubscribeReset", Some(src), _) => (None, Some(Box::new(src.subscribe_reset())), None),
+            ("Downgrade", Some(src), _) => (None, None, Some(src.downgrade())),
+            ("Subscribe", None, Some(u)) => (None, Some(Box::new(Observable::subscribe(u))), None),
+            ("SubscribeReset", None, Some(u)) => (None, Some(Box::new(Observable::subscribe_reset(u))), None),
+            (other, _, _) => panic!("harness: unexpected setup op {other}"),
         };
         let h = hands.entry(n).or_insert_with(mk);
         if owner.is_some() {
